@@ -49,9 +49,10 @@ Sources == 0..(N + 1)
 LeafKinds == {"leaf", "leafv"}
 Leaves == {n \in Nodes : Kind(n) \in LeafKinds}
 SchedLeaves == {n \in Nodes : Kind(n) = "sched"}
-OwnsSource(n) == Kind(n) \in {"when_all", "when_any", "stop_when"}
+OwnsSource(n) == Kind(n) \in {"when_all", "when_any", "stop_when"}     \* reference-counted fan-out with an own stop source
+HasSource(n) == OwnsSource(n) \/ Kind(n) = "lvwss"                       \* ... plus let_value_with_stop_source
 FnKinds == {"then", "thenv", "upon_error", "upon_done", "let_value", "let_error", "let_done",
-            "retry_when", "repeat_effect_until"}
+            "retry_when", "repeat_effect_until", "just_from", "defer", "let_value_with"}
 FnNodes == {n \in Nodes : Kind(n) \in FnKinds}
 Ctxs == {Arg(n) : n \in SchedLeaves}
 Idx(q, k) == CHOOSE i \in 1..Len(Kids(q)) : Kids(q)[i] = k
@@ -61,7 +62,7 @@ Desc(n) == UNION {{Kids(n)[i]} \cup Desc(Kids(n)[i]) : i \in 1..Len(Kids(n))}
 RECURSIVE TokenOf(_)
 TokenOf(n) == LET q == Par(n) IN
               IF q = 0 THEN 0
-              ELSE IF OwnsSource(q) THEN q
+              ELSE IF HasSource(q) THEN q
               ELSE IF Kind(q) = "unstoppable" THEN Never
               ELSE TokenOf(q)
 \* does a request on source s reach (through forwarding callbacks) the token seen by node n ?
@@ -147,6 +148,9 @@ Init ==
   /\ S = InitS
 
 \* ------------------------------------------------------------------ internal steps
+\* user callable of node q applied (or throwing)
+CallFn(T, q, p) == [T EXCEPT !.fnCalls = Append(@, <<q, p>>)]
+
 DoStart(T, n) ==
   LET T0 == [T EXCEPT !.st[n] = "started", !.compl[n] = 0]
       t == TokenOf(n)
@@ -165,6 +169,16 @@ DoStart(T, n) ==
     [] K = "justv" -> Repl(T0, <<Sig("complete", n, Val(<<>>))>>)
     [] K = "just_error" -> Repl(T0, <<Sig("complete", n, Err(<<n>>))>>)
     [] K = "just_done" -> Repl(T0, <<Sig("complete", n, Done)>>)
+    [] K = "just_void_or_done" -> Repl(T0, <<Sig("complete", n, IF Arg(n) = 1 THEN Val(<<>>) ELSE Done)>>)
+    [] K = "just_from" ->
+         Repl(CallFn(T0, n, <<>>), <<Sig("complete", n, IF cfg.throwAt = n THEN Thrown(n) ELSE Val(<<n>>))>>)
+    [] K \in {"defer", "let_value_with"} ->
+         IF cfg.throwAt = n THEN Repl(CallFn(T0, n, <<>>), <<Sig("complete", n, Thrown(n))>>)
+         ELSE Repl(CallFn(T0, n, <<>>), <<Sig("start", Kids(n)[1], NONE)>>)
+    [] K = "variant" -> Repl(T0, <<Sig("start", Kids(n)[Arg(n)], NONE)>>)
+    [] K = "lvwss" ->       \* let_value_with_stop_source: own source, fused with the receiver's token while running
+         LET T1 == [T0 EXCEPT !.req[n] = FALSE] IN
+         Repl(Reg(T1, t, n), RegFrames(T, t, n) \o <<Sig("start", Kids(n)[1], NONE)>>)
     [] K = "stop_if_requested" ->
          Repl(T0, <<Sig("complete", n, IF ReqOf(T, t) THEN Done ELSE Val(<<>>))>>)
     [] OwnsSource(n) ->
@@ -182,9 +196,6 @@ DoLeafInl(T, n) ==
                                    [] Mode(n).ch = "e" -> Err(<<n>>)
                                    [] OTHER -> Done)>>)
   ELSE Repl(T, <<>>)
-
-\* user callable of node q applied (or throwing)
-CallFn(T, q, p) == [T EXCEPT !.fnCalls = Append(@, <<q, p>>)]
 
 DoComplete(T, k, r) ==
   LET T0 == [T EXCEPT !.st[k] = "done", !.compl[k] = @ + 1]
@@ -264,6 +275,7 @@ DoComplete(T, k, r) ==
                 ELSE Repl(ResetSub([CallFn(T0, q, <<>>) EXCEPT !.iter[q] = @ + 1], Kids(q)[1]),
                           <<Sig("start", Kids(q)[1], NONE)>>)
            ELSE Fwd
+      [] K = "lvwss" -> Repl(Dereg(T0, TokenOf(q), q), <<Sig("complete", q, r)>>)
       [] K = "done_as_optional" ->
            IF r.ch = "d" THEN Repl(T0, <<Sig("complete", q, Val(<<0>>))>>) ELSE Fwd
       [] OTHER -> Fwd     \* mat (dematerialize o materialize), into_variant, unstoppable, wqv, wsched, walloc, any
@@ -295,6 +307,7 @@ DoRunCb(T, c) ==
        IF Mode(c).onStop = "done" /\ T.st[c] = "started" /\ ~Mode(c).inl
        THEN Repl(T0, <<Sig("complete", c, Done)>>)
        ELSE Repl(T0, <<>>)
+  ELSE IF Kind(c) = "lvwss" THEN Repl(T, <<Sig("reqstop", c, NONE)>>)
   ELSE \* cancel callback of when_all / when_any / stop_when
        IF T.cnt[c] = 0 THEN Repl(T, <<>>)
        ELSE Repl([T EXCEPT !.cnt[c] = @ + 1], <<Sig("reqstop", c, NONE), Sig("elem", c, NONE)>>)
@@ -341,6 +354,11 @@ ApplyRunCtx(T, c) ==
                       THEN <<Sig("complete", n, IF ReqOf(T, TokenOf(n)) THEN Done ELSE Val(<<>>))>>
                       ELSE <<>>]
 
+\* user code requests stop on the source handed out by let_value_with_stop_source
+EnInnerStop(T, q) == Kind(q) = "lvwss" /\ T.st[q] = "started" /\ ~T.req[q]
+ApplyInnerStop(T, q) == [T EXCEPT !.stack = <<Sig("reqstop", q, NONE)>>, !.cur = <<"I", q>>, !.lastCh = ""]
+ExtInnerStop(q) == Quiescent /\ EnInnerStop(S, q) /\ S' = ApplyInnerStop(S, q) /\ UNCHANGED cfg
+
 ExtStart == Quiescent /\ EnStart(S) /\ S' = ApplyStart(S) /\ UNCHANGED cfg
 ExtCompleteLeaf(l, ch) == Quiescent /\ EnCompleteLeaf(S, l) /\ S' = ApplyCompleteLeaf(S, l, ch) /\ UNCHANGED cfg
 ExtStop == Quiescent /\ EnStop(S) /\ S' = ApplyStop(S) /\ UNCHANGED cfg
@@ -349,6 +367,7 @@ ExtRunCtx(c) == Quiescent /\ EnRunCtx(S, c) /\ S' = ApplyRunCtx(S, c) /\ UNCHANG
 External == \/ ExtStart \/ ExtStop
             \/ \E l \in Leaves, ch \in {"v", "e", "d"} : ExtCompleteLeaf(l, ch)
             \/ \E c \in Ctxs : ExtRunCtx(c)
+            \/ \E q \in Nodes : ExtInnerStop(q)
 Next == Internal \/ External
 Spec == Init /\ [][Next]_vars
 \* fairness only on internal cascades and on draining contexts: leaves and the stop request are the environment's
